@@ -9,7 +9,7 @@ ID = "C09"
 LEVEL = "exploration"
 SHARDS = {"quick": 16, "thorough": 16}
 RULE = (
-    "Scenarios {cold store; warm store + cold cache; warm cache} x {same key; different keys of one function; different functions; a caller with a nested call racing the nested call itself} x {filesystem, filesystem + cache} "
+    "Scenarios {cold store; warm store + cold cache; warm cache} x {same key; the same call presented positionally / via partial() / by keywords; different keys of one function; different functions; a caller with a nested call racing the nested call itself} x {filesystem, filesystem + cache} "
     "x 2-3 threads, each making one memento call. Every execution runs under a deterministic scheduler that owns the interleaving: line events in runner_local/storage_base/runner/call_stack and "
     "function-call events in every other twosigma.memento module are yield points; locks of the library are replaced (by type) with cooperative ones. Schedules: (i) systematic - every schedule with one preemption "
     "(each yield point x each other thread) per scenario (quick: every 2nd-4th yield point for the larger scenarios), thorough adds sampled two-preemption schedules; (ii) random - Hypothesis-generated preemption lists of length <= 8. "
@@ -30,13 +30,14 @@ MANIFEST = {
 
 SCENARIOS = []
 for store in ("cold", "warm-cold-cache", "warm-cache"):
-    for shape in ("same", "diffkey", "difffn", "nested"):
+    for shape in ("same", "diffkey", "difffn", "nested", "presented"):
         for backend in ("fsc", "fs"):
             if backend == "fs" and store != "cold":
                 continue
             SCENARIOS.append({"store": store, "shape": shape, "backend": backend, "threads": 2})
 SCENARIOS.append({"store": "cold", "shape": "same", "backend": "fsc", "threads": 3})
 SCENARIOS.append({"store": "warm-cache", "shape": "same", "backend": "fsc", "threads": 3})
+SCENARIOS.append({"store": "cold", "shape": "presented", "backend": "fsc", "threads": 3})
 
 
 def _calls(scn):
@@ -48,6 +49,9 @@ def _calls(scn):
         return [["cv", 1 + i] for i in range(n)]
     if shape == "difffn":
         return [["cv", 1], ["cv2", 1], ["cv", 1]][:n]
+    if shape == "presented":
+        # one call, presented positionally / through partial application / by keywords
+        return [["cp", 1], ["cp.partial", 1], ["cp.kw", 1]][:n]
     return [["cc", 1], ["cv", 1], ["cc", 1]][:n]
 
 
@@ -63,10 +67,11 @@ def _child(spec):
     scn = spec["scenario"]
     calls = _calls(scn)
     VAL = {1: "value-one", 2: "value-two", 3: "value-three"}
-    for fname in ("cv", "cv2"):
+    for fname in ("cv", "cv2", "cp"):
         for k, v in VAL.items():
             rt.TABLE[(fname, k)] = (lambda v: (lambda: v))(v)
-    expected = {"cv": lambda k: VAL[k], "cv2": lambda k: VAL[k], "cc": lambda k: [VAL[k], 1]}
+    expected = {"cv": lambda k: VAL[k], "cv2": lambda k: VAL[k], "cc": lambda k: [VAL[k], 1], "cp": lambda k: VAL[k],
+                "cp.partial": lambda k: VAL[k], "cp.kw": lambda k: VAL[k]}
     counter = [0]
 
     def prepare():
@@ -162,7 +167,7 @@ def judge(scn, pre, res, ref):
         elif r["ok"] != r["want"]:
             out.violation("%s: thread %d (%s) returned %r, sequential value %r" % (label, i, calls[i], r["ok"], r["want"]), symptom="wrong-value")
     # exactly-once execution per distinct call that was not memoized beforehand
-    distinct = {(f, k) for f, k in calls}
+    distinct = {(f.split(".")[0], k) for f, k in calls}
     if scn["shape"] == "nested":
         distinct.add(("cv", 1))
     for f, k in sorted(distinct):
